@@ -753,6 +753,7 @@ class HGibbsRun:
     def run(self):
         ctx, sc = self.ctx, self.sc
         tape0 = np.random.get_state()
+        core.reset_volatile_globals()         # (run and reference run both start from the state a new process starts with)
         g = self._build()
         W = sc["W"]
         # what every sweep produced, observed at the block samplers themselves (the recorded chain is compared with it)
@@ -785,6 +786,7 @@ class HGibbsRun:
             return
         got = _joint_chain(g.get_samples())
         np.random.set_state(tape0)
+        core.reset_volatile_globals()
         h = self._build()
         if W:
             h.warmup(W)
